@@ -113,9 +113,15 @@ def finish(rep, meta, write=True, evidence_dir=None):
     from .model import AnalysisError
     out = sys.stdout
     # floors
+    open_now = set(k['key'] for k in load_known().get('open', []) if k.get('property') == rep.prop or rep.prop in k.get('properties', []))
+    has_new_violation = any(i.verdict == VIOLATED and i.key not in open_now for i in rep.instances)
     for rule, (n, what) in sorted(rep.floors.items()):
         got = rep.count(rule, (HOLDS, VIOLATED, SUBTOL, UNDECIDED))
         if got < n:
+            if has_new_violation:
+                # a definite violation explains the missing instances (the broken construct stops the later rules): report it, not the floor
+                out.write('NOTE %s instance floor missed for %s: %d < %d (%s); definite violations are reported below\n' % (rep.prop, rule, got, n, what))
+                continue
             raise AnalysisError('instance floor missed for %s: %d < %d (%s)' % (rule, got, n, what))
     for name, fired in rep.controls:
         if not fired:
